@@ -15,7 +15,6 @@ Oracle: models/rate.py over (configured limit history, grant history), nothing e
 from __future__ import annotations
 
 import asyncio
-import bisect
 
 from sim.world import World
 from models import rate
@@ -192,13 +191,16 @@ def _consumers(side, n, count, gaps=(0.0,), starts=None, **extra):
 
 
 def _saturating(limit, n=2):
-    """Consumers that get past the burst of ``limit`` and keep asking."""
+    """Consumers that get past the burst of ``limit`` and keep asking; returns (consumers, seconds the
+    saturated phase lasts)."""
     if limit == 0:
-        return _consumers('up', n, 40)
+        return _consumers('up', n, 40, gaps=(0.01,)), 0.4
     if limit <= 64:
-        return _consumers('up', n, min(600 // n, limit * 8 // n + 60))
-    batch = 512 if limit == 1000 else 4096
-    return _consumers('up', n, (limit * 8) // (batch * n) + 12, batch=batch)
+        post = 60
+        return _consumers('up', n, limit * 8 // n + post), n * post * 128 / (1024.0 * limit)
+    batch, post = (512, 12) if limit == 1000 else (4096, 3)
+    return (_consumers('up', n, (limit * 8) // (batch * n) + post, batch=batch),
+            n * post * batch * 128 / (1024.0 * limit))
 
 
 def _transition_plans():
@@ -208,16 +210,18 @@ def _transition_plans():
     for a in values:
         for b in values:
             for placement in ('timed', 'trigger'):
-                cons = _saturating(a)
-                # a second wave after the change so that the new limit is exercised as well
-                more = _saturating(b)
+                if a == 0 and placement == 'trigger':
+                    continue        # nobody ever waits under "no limit"
+                cons, lasts = _saturating(a)
+                # connections opened after the change get the limiter in force
+                more = _consumers('up', 2, 40, late=True)
                 for c in more:
                     c['id'] += 4
                     c['conn'] += 2
-                    c['start'] = 3.0
+                    c['start'] = round(lasts + 3.0, 3)
                 ch = {'side': 'up', 'kbps': b, 'via': 'set'}
-                if placement == 'timed' or a == 0:
-                    ch['at'] = 1.505
+                if placement == 'timed':
+                    ch['at'] = round(lasts / 2, 3) + 0.0005
                 else:
                     ch['trigger'] = {'consumer': 0, 'nth': 2, 'delay': 0.005}
                 out.append({'seed': 7, 'initial': {'up': a, 'down': 0}, 'consumers': cons + more, 'changes': [ch],
@@ -230,7 +234,8 @@ def corpus(tier):
     # 1. constant limit, one and four saturating consumers
     for lim in (0,) + LIMITS:
         for n in (1, 4):
-            out.append({'seed': 1, 'initial': {'up': lim, 'down': 0}, 'consumers': _saturating(lim, n), 'changes': []})
+            out.append({'seed': 1, 'initial': {'up': lim, 'down': 0}, 'consumers': _saturating(lim, n)[0],
+                        'changes': []})
     # 2. low limits, staggered starts (sub-ms and 10 ms aligned phases), long runs
     for lim in (1, 2):
         for starts in ((0.0, 0.0001, 0.0002, 0.0003), (0.0, 0.0025, 0.005, 0.0075), (0.0, 0.01, 0.02, 0.03)):
@@ -278,10 +283,10 @@ def corpus(tier):
 
 def enumerated_axes(tier):
     return {'limit_transition': {
-        'size': 98, 'exhaustive': True,
-        'what': ('every ordered pair (from, to) of {0,1,2,10,64,1000,10000} KiB/s x change placed {at a plan instant '
-                 'while two consumers saturate the old limit, 5 ms after a consumer blocked inside take_tokens}; a '
-                 'second wave of consumers exercises the new limit'),
+        'size': 91, 'exhaustive': True,
+        'what': ('every ordered pair (from, to) of {0,1,2,10,64,1000,10000} KiB/s with the change at a plan instant '
+                 'while two consumers saturate the old limit (49), and for from > 0 also 5 ms after a consumer '
+                 'blocked inside take_tokens (42); two connections opened later pick up the limiter in force'),
     }}
 
 
